@@ -1,7 +1,7 @@
 (* Extract.v -- extraction of the executable model and spec oracles to OCaml.
    ExtrOcamlBasic only; numbers stay the Coq datatypes. *)
 From Coq Require Import Extraction ExtrOcamlBasic.
-From Lhasa Require Import Base Generated Crc16 DecBase BitReader Null Lzs Lz5 Decoder S_Larc Lh1 Lzhuf PmaCommon Pm2 Pm1 LhNew InputStream Header BasicReader Fs FsRun AnyDecoder MacBinary Reader ReaderMem Printf Glob ListOut CliFilter CliExtract CliMain S_Pm S_LhNew XCheck.
+From Lhasa Require Import Base Generated Crc16 DecBase BitReader Null Lzs Lz5 Decoder S_Larc Lh1 Lzhuf PmaCommon Pm2 Pm1 LhNew InputStream Header BasicReader Fs FsRun AnyDecoder MacBinary Reader ReaderMem ReaderMemFail Printf Glob ListOut CliFilter CliExtract CliMain S_Pm S_LhNew XCheck.
 Extraction Language OCaml.
 Set Extraction Optimize.
 Extraction "../harness/ml/model.ml"
@@ -27,6 +27,7 @@ Extraction "../harness/ml/model.ml"
   run_ops fs_init dump run_case
   lha_decoder_for_name lha_reader_new lha_reader_set_dir_policy lha_reader_next_file lha_reader_read lha_reader_check lha_reader_extract lha_reader_current_is_fake reader_br read_loses_decoder check_loses_decoder
   xcheck_all
+  fmem_new f_live_blocks f_free_reader f_free_stream fls_next fls_read fls_check fls_extract
   filter_next_file file_full_path make_parent_directories extract_archive test_file_crc print_archive do_command lha_main cli_fs_init cli_run fs_fopen_rb
   mem_new live_blocks m_free_reader m_free_stream ls_next ls_read ls_check ls_extract blocks_of_header
   safe_output match_glob matches_filter lha_filter_next_file parse_command_line parse_main
